@@ -630,7 +630,17 @@ func (e *Enc) allocatedFacts(st *State, v Val) string {
 	walk = func(t types.Type, cs []string) []string {
 		var out []string
 		switch u := t.Underlying().(type) {
-		case *types.Pointer, *types.Map, *types.Chan:
+		case *types.Pointer:
+			out = append(out, app("<", cs[0], al))
+			// an interior pointer (negative reference) lies inside an allocated object
+			r := cs[0]
+			b1 := app("subBase", r)
+			b2 := app("subBase", b1)
+			out = append(out, imp(app("<", r, "0"), or(
+				and(app("<", "0", b1), app("<", b1, al)),
+				and(app("<", b1, "0"), app("<", "0", b2), app("<", b2, al)),
+				and(app("<", b1, "0"), app("<", b2, "0")))))
+		case *types.Map, *types.Chan:
 			out = append(out, app("<", cs[0], al))
 		case *types.Slice:
 			out = append(out, app("<", cs[0], al))
